@@ -33,7 +33,12 @@ class KeySource:
         self.draws = []
 
     def __call__(self, n):
-        if self.kind == "str":
+        if self.kind in ("zero", "counter", "ones"):
+            # keys a hardened implementation might be tempted to "improve": all zero (no masking effect), 0,1,2,.., all ones
+            k = len(self.draws)
+            v = bytes(n) if self.kind == "zero" else b"\xff" * n if self.kind == "ones" else k.to_bytes(n, "big")
+            self.draws.append((n, list(v)))
+        elif self.kind == "str":
             v = "".join(chr(self.rng.randrange(33, 127)) for _ in range(n))
             self.draws.append((n, list(v.encode("latin-1"))))
         else:
@@ -169,6 +174,14 @@ def gen_calls(rng, tier):
         lens |= {1 << 17, (1 << 20) + 3}
     lens = sorted(lens)
     kinds = ["default", "bytes", "str"]
+    for kk in ("zero", "counter", "ones"):
+        for n in (0, 1, 5, 125, 126, 300, 65536):
+            for api in ("send_binary", "send_frame", "ping", "resend_frame"):
+                if api == "ping" and n > 125:
+                    continue
+                pl = rng.randbytes(n)
+                calls.append((api, 9 if api == "ping" else 2, 1, (pl, rng.randbytes(n)) if api == "resend_frame" else pl, kk, False))
+        calls.append(("close", 8, 1, (1000, b"bye"), kk, False))
     for n in lens:
         api = rng.choice(["send", "send_binary", "send_bytes", "send_frame"])
         ptype = rng.choice([bytes, bytearray]) if api != "send_binary" else bytes
